@@ -621,6 +621,11 @@ func (E *Engine) rootOf(lv *LVal) string {
 // cover emits a reachability (anti-vacuity) check: the current path condition
 // must be satisfiable. It fails only if a solver refutes it.
 func (E *Engine) cover(st *State, site, what, pos string) {
+	E.coverWith(st, site, what, pos, "")
+}
+
+// coverWith: the path condition together with extra is satisfiable.
+func (E *Engine) coverWith(st *State, site, what, pos, extra string) {
 	if E.dry > 0 || st.dead || E.relSilence {
 		return
 	}
@@ -630,7 +635,11 @@ func (E *Engine) cover(st *State, site, what, pos string) {
 		ob.Props = append(ob.Props, p)
 	}
 	sort.Strings(ob.Props)
-	ob.SMT = E.render(st.pc, "false", nil)
+	pc := st.pc
+	if extra != "" {
+		pc = append(append([]string(nil), st.pc...), extra)
+	}
+	ob.SMT = E.render(pc, "false", nil)
 	E.Obligs = append(E.Obligs, ob)
 }
 
